@@ -221,6 +221,33 @@ def generate(prog, contracts, P, tier, results, funcs_report):
         meta = {'owner_var': W.objname.get(r['fs'][1]) if r['fs'][0] == 'fs' else None, 'flagset': r['fs'][2] if r['fs'][0] == 'fs' else None,
                 'flag': r['name'], 'target_pkg': tgt[0], 'target_var': tgt[1]}
         out.append((name, s.to_smt2(), text, meta))
+    # Second clause of the statement ("leaving an option out has the same effect as passing the default value"): a
+    # command that asks pflag whether an option was *given* (FlagSet.Changed) can tell the omitted option from the
+    # explicitly passed default, so every such question is an obligation of its own, named after command and option.
+    # It cannot be discharged by a solver: it fails wherever the question is asked.
+    rev = {}
+    for nm_, fk_ in prog.aliases.items():
+        rev.setdefault(fk_, nm_)
+    seen_c = {}
+    for key in sorted(prog.funcs):
+        fn = prog.funcs[key]
+        if not key.startswith('cmd.'):
+            continue
+        for blk in fn['blocks']:
+            for ins in blk['instrs']:
+                if ins['op'] in ('Call', 'Defer', 'Go') and ins.get('static') == '(*github.com/spf13/pflag.FlagSet).Changed':
+                    a_ = ins['args'][1] if len(ins['args']) > 1 else None
+                    flag_ = a_['v'] if a_ is not None and a_['k'] == 'const' else '?'
+                    base = '%s#omitted_equals_explicit_default[--%s]' % (rev.get(key, key), flag_)
+                    n = seen_c.get(base, 0)
+                    seen_c[base] = n + 1
+                    if n:
+                        continue
+                    s = z3.Solver()
+                    s.add(z3.BoolVal(True))
+                    text = ('%s asks whether option --%s was given on the command line (FlagSet.Changed at %s): passing the documented '
+                            'default explicitly and leaving the option out are then different runs' % (rev.get(key, key), flag_, ins.get('pos', '')))
+                    out.append((base, s.to_smt2(), text, {'changed_flag': flag_, 'function': rev.get(key, key)}))
     P['_c19_registrations'] = len(W.reg)
     return out
 
